@@ -133,6 +133,7 @@ pub(crate) fn dispatch<S: Src>(name: &str, s: &mut S) {
         "c14_prev_footer_n4" => c14::prev::<S, 4, 3>(s, true),
         "c17_posix_parse_6" => c17::posix_parse::<S, 6>(s),
         "c17_posix_parse_4" => c17::posix_parse::<S, 4>(s),
+        "c17_posix_parse_seeded_2" => c17::posix_parse_seeded::<S, 2>(s),
         "c17_posix_parse_9" => c17::posix_parse::<S, 9>(s),
         "c17_parse_i64_20" => c17::parse_i64::<S, 20>(s),
         "c17_parse_i64_6" => c17::parse_i64::<S, 6>(s),
